@@ -338,6 +338,28 @@ def ugrid_dataset(mesh, dialect):
     return ds
 
 
+def esmf_dataset(mesh, dialect):
+    """An ESMF unstructured-mesh dataset (ESMFMESH) describing the model mesh."""
+    import xarray as xr
+
+    d = dict(DEFAULT_DIALECT)
+    d.update(dialect or {})
+    lon = _lon_out(mesh.lon, d["lon360"])
+    conn = mesh.conn(fill=-1, start=1, dtype=np.int32)
+    if d.get("esmf_float"):
+        conn = conn.astype(np.float64)
+        conn[conn < 0] = np.nan  # what decoding a _FillValue leaves behind
+    c = mesh.face_centres()
+    clo, cla = M.lonlat_of(c)
+    ds = xr.Dataset()
+    ds["nodeCoords"] = xr.DataArray(np.stack([lon, np.array(mesh.lat)], axis=1), dims=["nodeCount", "coordDim"], attrs={"units": "degrees"})
+    ds["elementConn"] = xr.DataArray(conn, dims=["elementCount", "maxNodePElement"], attrs={"long_name": "Node indices that define the element connectivity"})
+    ds["numElementConn"] = xr.DataArray(np.array([len(f) for f in mesh.faces], dtype=np.int8), dims=["elementCount"])
+    ds["centerCoords"] = xr.DataArray(np.stack([_lon_out(clo, d["lon360"]), cla], axis=1), dims=["elementCount", "coordDim"], attrs={"units": "degrees"})
+    ds.attrs["gridType"] = "unstructured mesh"
+    return ds
+
+
 def vertices_array(mesh, xyz=False, scale=1.0):
     w = mesh.n_max
     if xyz:
@@ -391,6 +413,13 @@ def open_source(spec, scratch=None):
             g = ux.open_grid(kw)
         elif prov in ("vertices", "vertices_xyz"):
             arr = vertices_array(mesh, xyz=(prov == "vertices_xyz"), scale=(dialect.get("xyz_scale", 1.0) if prov == "vertices_xyz" else 1.0))
+            if prov == "vertices_xyz" and dialect.get("int_xyz"):
+                # whole-number Cartesian corners typed as integers (e.g. the cube (+-1, +-1, +-1))
+                valid = arr != float(M.FILL)
+                k = np.abs(arr[valid]).max()
+                scaled = np.where(valid, arr / (np.abs(arr[valid]).min() if np.abs(arr[valid]).min() > 0 else 1.0), arr)
+                if np.allclose(scaled[valid], np.rint(scaled[valid]), atol=1e-9):
+                    arr = np.where(valid, np.rint(scaled), arr).astype(np.int64)
             inputs = {"face_vertices": arr}
             g = ux.Grid.from_face_vertices(arr, latlon=(prov == "vertices"))
         elif prov == "ugrid_mem":
@@ -399,6 +428,22 @@ def open_source(spec, scratch=None):
             if spec.get("twice"):
                 ux.Grid.from_dataset(ds)
             g = ux.Grid.from_dataset(ds)
+        elif prov == "esmf_mem":
+            ds = esmf_dataset(mesh, dialect)
+            inputs = {"dataset": ds}
+            g = ux.Grid.from_dataset(ds)
+        elif prov == "raw_ds":
+            # a dataset already in uxarray's naming, handed over without a source specification
+            lon = _lon_out(mesh.lon, dialect.get("lon360", False))
+            ds = xr.Dataset(
+                {
+                    "node_lon": ("n_node", lon, {"units": "degrees_east"}),
+                    "node_lat": ("n_node", np.array(mesh.lat), {"units": "degrees_north"}),
+                    "face_node_connectivity": (("n_face", "n_max_face_nodes"), mesh.conn(), {"cf_role": "face_node_connectivity", "_FillValue": M.FILL, "start_index": 0}),
+                }
+            )
+            inputs = {"dataset": ds}
+            g = ux.Grid.from_dataset(ds, source_grid_spec=dialect.get("spec"))
         elif prov == "ugrid_mem_chunked":
             # the caller's dataset is dask-backed before the grid is built
             ds = ugrid_dataset(mesh, dialect).chunk()
